@@ -21,7 +21,11 @@ FAM['CB1'] = Schema('CB1', [Opt('int', 'a', '', 5, 'pv'), Opt('int', 'l', 'L', [
                             Opt('sec', 's', 'M', sub=[Opt('int', 'x', '', 1, 'pv')], cbs='v'),
                             Opt('sec', 't', '', sub=[Opt('int', 'y', '', 1, 'v')], cbs='v'), Opt('func', 'fn', '', None, 'u')])
 USE = ['F01', 'F03', 'F05', 'F06', 'F07', 'F08', 'F09', 'F11', 'F13', 'F15', 'F16']
-SEPS = [b'\n', b'\n\n', b' # c\n', b' // c\n', b' /* c */ ', b' /* a\nb */ ', b' /* a *\n * b\n */ ']
+SEPS = [b'\n', b'\n\n', b' # c\n', b' // c\n', b' /* c */ ', b' /* a\nb */ ', b' /* a *\n * b\n */ ', b'\r\n', b' # c\r\n\r\n']
+# CR LF line ends: the statement counts "every newline once"; what a carriage return between tokens is otherwise is not said anywhere,
+# and the scanner drops it like a blank - the reference scanner does the same here so that the line count can be compared
+import reflex
+reflex.CR_IS_BLANK = True
 BATCH = 300
 
 
@@ -177,8 +181,8 @@ def shard_layout(shard):
             elif dev == 1:
                 combos = [((p, s),) for p in range(k + 1) for s in range(len(SEPS))]
             else:
-                combos = [((p, s), (q, t)) for p in range(k + 1) for q in range(p + 1, k + 1)
-                          for s in range(len(SEPS)) for t in range(len(SEPS))]
+                two = range(7)        # pairs of deviations: the seven LF-based separators (the CR LF ones are covered singly)
+                combos = [((p, s), (q, t)) for p in range(k + 1) for q in range(p + 1, k + 1) for s in two for t in two]
             for combo in combos:
                 seps = [b' '] * (k + 1)
                 for p, s in combo:
